@@ -369,3 +369,23 @@ CHECKS["C09"] = {
         {"name": "concurrent-race", "run": "^TestC09Concurrent$", "kind": "rapid", "race": True, "tiers": ["thorough"], "checks": {"thorough": 200}, "shards": {"thorough": 8}},
     ],
 }
+
+CHECKS["C11"] = {
+    "pkg": "props/c11",
+    "level": "exploration",
+    "rule": "A case is a client configuration (ResponseBodyStream on/off, MaxResponseBodySize unset/100/1 MiB, header-name normalisation on/off, via proxy) and a sequence of 1..5 exchanges through the real HostClient.Do over reactive scripted connections (a response becomes readable only after its request was completely written). "
+            "Requests through the public API: method; URL via SetRequestURI or via URI setters (paths with spaces, non-ASCII, + ; = % ~ @ :, query args needing escaping); 0..5 headers via SetHeader/Header.Add, optional Cookie; body none / SetBody / SetBodyStream(known) / SetBodyStream(-1) / SetFormData / multipart fields and file readers; sizes centred on buffer boundaries. "
+            "Responses from the wire generator: statuses 200/201/204/206/302/304/404/500, Content-Length, chunked (+trailers), until-close, bodiless with stray framing headers, 1..2 interim 100 Continue, arbitrary segmentation. Non-trivial = stream/multipart request body, chunked/until-close response, position >= 2 in a sequence, or a size >= 4096; distinct by FNV-64 of the case.",
+    "assumptions": [
+        "default headers hertz adds (User-Agent, Content-Type for bodies, Content-Length) are allowed extras; only headers the application set are required to arrive",
+        "the client may dial a new connection whenever it likes (closing conservatively is allowed); reusing a connection after a close-delimited or Connection: close response is detected because that connection then yields EOF",
+        "with MaxResponseBodySize = L a larger body must give ErrBodyTooLarge in buffered mode; in streaming mode the stream must never deliver more than the declared body",
+    ],
+    "level_text": "Random exploration with three independent request decoders (own strict reader, net/http.ReadRequest, the real hertz server) that must all agree with the abstract request (method, target, Host, application headers, body bytes / decoded form and multipart fields), exactly one request per Do; and the abstract response must come back intact (status, headers, body, trailers) in buffered and streaming mode across reused connections.",
+    "level_note": "Trusts wire's codecs, net/http and mime/multipart as independent decoders; scripted connections instead of sockets.",
+    "technique": "property-based testing (rapid) with differential decoding by three independent parsers and a response round-trip oracle",
+    "nontrivial_floor": 300,
+    "units": [
+        {"name": "exchanges", "run": "^TestC11Exchanges$", "kind": "rapid", "checks": {"quick": 3000, "thorough": 60000}, "shards": {"quick": 8, "thorough": 16}},
+    ],
+}
